@@ -275,7 +275,7 @@ fn watched(work: impl FnOnce(&AtomicU64, &Mutex<String>) -> (bool, String) + Sen
     }
 }
 
-fn search(alphabet: Vec<Op>, max_len: usize, what: &'static str) -> (bool, String) {
+fn search(alphabet: Vec<Op>, max_len: usize, what: String) -> (bool, String) {
     watched(move |ticks, cur| {
         let tmpl = template();
         let mut tried = 0u64;
@@ -314,7 +314,8 @@ fn c15_kb_search_4ops() -> (bool, String) {
         a.push(Op::Enable(n, false));
     }
     a.push(Op::Clear);
-    search(a, 4, "<= 4 operations out of add_rule / remove_rule / set_rule_enabled true,false / clear over 4 names x saliences {-5,0,10}, up to renaming")
+    let max_len = crate::bound(4, 5); // (the name says 4: the quick tier's bound)
+    search(a, max_len, format!("<= {} operations out of add_rule / remove_rule / set_rule_enabled true,false / clear over 4 names x saliences {{-5,0,10}}, up to renaming", max_len))
 }
 
 fn c15_kb_search_5ops() -> (bool, String) {
@@ -327,7 +328,8 @@ fn c15_kb_search_5ops() -> (bool, String) {
         a.push(Op::Toggle(n));
     }
     a.push(Op::Clear);
-    search(a, 5, "<= 5 operations out of add_rule / remove_rule / set_rule_enabled (flipping the flag) / clear over 4 names x saliences {-5,0,10}, up to renaming")
+    let max_len = crate::bound(5, 6); // (the name says 5: the quick tier's bound)
+    search(a, max_len, format!("<= {} operations out of add_rule / remove_rule / set_rule_enabled (flipping the flag) / clear over 4 names x saliences {{-5,0,10}}, up to renaming", max_len))
 }
 
 fn c15_kb_search_6ops() -> (bool, String) {
@@ -338,7 +340,8 @@ fn c15_kb_search_6ops() -> (bool, String) {
         }
         a.push(Op::Remove(n));
     }
-    search(a, 6, "<= 6 operations out of add_rule / remove_rule over 4 names x saliences {0,10}, up to renaming")
+    let max_len = crate::bound(6, 7); // (the name says 6: the quick tier's bound)
+    search(a, max_len, format!("<= {} operations out of add_rule / remove_rule over 4 names x saliences {{0,10}}, up to renaming", max_len))
 }
 
 /// Two threads and fixed iteration counts (no clock in the verdict): rule A (salience 0) stays; the writer adds and removes B
@@ -348,7 +351,7 @@ fn c15_kb_search_6ops() -> (bool, String) {
 /// actually observed; a deadlock is reported by the watchdog.
 fn c15_concurrent_lookup() -> (bool, String) {
     watched(|ticks, cur| {
-        const ROUNDS: usize = 20000;
+        let rounds: usize = crate::bound(20000, 200000);
         let tmpl = template();
         let kb = Arc::new(KnowledgeBase::new("c15"));
         let mk = |n: usize, s: i32| {
@@ -389,7 +392,7 @@ fn c15_concurrent_lookup() -> (bool, String) {
                 lookups
             })
         };
-        for i in 0..ROUNDS {
+        for i in 0..rounds {
             ticks.fetch_add(1, Ordering::Relaxed);
             let _ = kb.add_rule(mk(1, 10));
             let _ = kb.set_rule_enabled("A", i % 2 == 0);
@@ -410,7 +413,7 @@ fn c15_concurrent_lookup() -> (bool, String) {
         match found {
             Some(d) => (true, d),
             None if end != vec!["A".to_string()] => (true, format!("after the writer finished (last operations: add B, set_rule_enabled A, remove B) get_rules() = {:?}, expected [A]", end)),
-            None => (false, format!("{} writer rounds against a concurrently looping reader ({}): every lookup returned a rule of the name asked for (or none)", ROUNDS, if lookups > 0 { "it ran" } else { "it never ran" })),
+            None => (false, format!("{} writer rounds against a concurrently looping reader ({}): every lookup returned a rule of the name asked for (or none)", rounds, if lookups > 0 { "it ran" } else { "it never ran" })),
         }
     })
 }
